@@ -739,6 +739,7 @@ func snapshot(vals []any) string {
 }
 
 func propC07(cx *sim.Ctx) {
+	sim.Declare([]string{"pool_get_reused_most_recent", "pool_get_reused_other", "pool_get_new", "pool_put_dropped", "fault_fired_only_in_reference"}, []string{"reader_error", "writer_error", "caller_callback_panic", "simplifier_panic", "process_restart"})
 	t := cx.T
 	c := &case07{RestartAt: -1}
 	c.Faults = sim.Intn(t, 3, "faultconfig") > 0
